@@ -11,7 +11,8 @@ CLAIM = dict(
           "faults are exceptions of class 异常; no matching handler propagates the error unchanged; a raise skips the rest of the block "
           "(outcome semantics). Tie: generated programs with raise points x handler placements x class matches (custom exception "
           "types), followed by statements that read caller state, executed by the interpreter and by the model in Coq incl. call-stack "
-          "length and scope depth after the run."),
+          "length and scope depth after the run; a handler family in which the handler uses its body's inputs, 此 and the methods "
+          "of its own module after faults raised by statements, built-in methods and called methods at two depths."),
     note=semprop.TB + "one module only; exception message texts of runtime faults are Go-defined and compared as wildcards.",
     technique="Coq proof (balance invariant incl. frame unwinding at handlers, induction on fuel) + model/implementation correspondence",
     design="5/C09")
